@@ -1174,10 +1174,10 @@ def check(run):
     run.cov["scenarios"] = len(plans)
     run.cov["model_ops"] = sum(len(p.ops) for p in plans)
     run.cov["observation_points"] = sum(len(p.obs) for p in plans)
-    run.cov["rule"] = ("scenarios = 6 scripted corner cases (wait-list rotation on a closed connection under LIFO and FIFO, F14 with pool 1 and 2, backend down + connect timeout + recovery) "
+    run.cov["rule"] = ("scenarios = 7 scripted corner cases (wait-list rotation on a closed connection under LIFO and FIFO, F14 with pool 1 and 2, checkout_failure_limit, backend refusing connections + connect timeout + recovery) "
                        "+ seeded random walks over {pool_size 1,2,3} x {transaction, session} x {LIFO, FIFO} x {connect_timeout 6000 ms, 300 ms}, up to 2*pool_size+1 clients, "
                        "actions chosen among those the model allows in the current state (BEGIN / single statement / statement error / intercepted batch / COMMIT / statement inside a transaction / "
-                       "socket close idle, inside a transaction, while waiting / Terminate / malformed Close / server closes mid-query / statement timeout / backend blip / waiter timeout); "
+                       "socket close idle, inside a transaction, while waiting / Terminate / malformed Close / server closes mid-query / server closes after half a reply / statement timeout / backend blip / waiter timeout); "
                        "every scenario ends with everybody leaving and a probe of pool_size simultaneous transactions.  evaluations = model ops compared planner-vs-Coq + observation points compared Coq-vs-pgcat; "
                        "distinct = distinct (pool_size, mode, strategy, op kind, (connections, pending) after the op, waiters) tuples")
     run.cov["samples"] = samples
